@@ -35,10 +35,10 @@ RULE = (
     "redelivery of an already marked message; distinct = (message type, disturbance mode, trust flag)."
 )
 ASSUMPTIONS = ["SQLite backend", "dedup_trust_negative_cache=True only in the single-writer setting the option documents"]
-MIN_OBS = {"marked_redeliveries": {"quick": 2000, "thorough": 30000}, "bloom_ids_checked": {"quick": 5000, "thorough": 100000}, "threaded_marked_redeliveries": {"quick": 5000, "thorough": 80000}, "threaded_rotations": {"quick": 500, "thorough": 8000}, "threaded_hydrations": {"quick": 300, "thorough": 5000}, "lookup_faults_injected": {"quick": 200, "thorough": 3000}}
+MIN_OBS = {"marked_redeliveries": {"quick": 2000, "thorough": 30000}, "bloom_ids_checked": {"quick": 5000, "thorough": 100000}, "threaded_marked_redeliveries": {"quick": 5000, "thorough": 80000}, "threaded_rotations": {"quick": 500, "thorough": 8000}, "threaded_hydrations": {"quick": 300, "thorough": 5000}, "lookup_faults_injected": {"quick": 200, "thorough": 3000}, "stale_copies_delivered": {"quick": 300, "thorough": 3000}}
 TIMEOUT = {"quick": 800, "thorough": 3400}
 
-MODES = ["none", "rotate", "reset_dedup", "new_processor", "mixed", "lookup_fault"]
+MODES = ["none", "rotate", "reset_dedup", "new_processor", "mixed", "lookup_fault", "stale_claim"]
 
 
 class _LookupFault:
@@ -90,7 +90,7 @@ def _redeliver(case: dict) -> dict:
     sample = None
     for mode in MODES:
         inj = []
-        if mode not in ("none", "lookup_fault"):
+        if mode not in ("none", "lookup_fault", "stale_claim"):
             for _ in range(rng.randint(2, 6)):
                 do = mode if mode != "mixed" else rng.choice(["rotate", "reset_dedup", "new_processor"])
                 inj.append({"at": rng.randrange(1, max(2, ref.steps * 2)), "do": do})
@@ -101,7 +101,11 @@ def _redeliver(case: dict) -> dict:
             fp = _LookupFault(random.Random(rng.randrange(1 << 30)), 0.35)
             hooks.H.stmt_hook = fp
         try:
-            run = delivery_run(spec, seed=rng.randrange(1 << 30), order=rng.choice(["fifo", "random"]), noack_p=1.0, max_redeliver=1, injections=inj, trust_negative=case["trust"], max_steps=ref.steps * 8 + 200, dedup_items=rng.choice([50, 200, 2000]))
+            # stale_claim: a worker claims a first delivery and stalls past its lock; the redelivery is handled and
+            # committed by another worker; then the stalled worker carries on with the copy it holds
+            stale = mode == "stale_claim"
+            run = delivery_run(spec, seed=rng.randrange(1 << 30), order=rng.choice(["fifo", "random"]), noack_p=0.0 if stale else 1.0, stale_p=0.5 if stale else 0.0, max_redeliver=1, injections=inj, trust_negative=case["trust"], max_steps=ref.steps * 8 + 200, dedup_items=rng.choice([50, 200, 2000]))
+            obs["stale_copies_delivered"] += run.stale_copies_delivered
         finally:
             if fp is not None:
                 from .. import hooks
